@@ -177,3 +177,67 @@ def propagated(p, e):
         if e2.name in P.UNWRAPS and e2.args and e2.args[0] == r:
             return True
     return False
+
+
+# ---------------------------------------------------------------- per-callee satisfaction (no cross product)
+def _own_facts(ix, p, m):
+    out = set()
+    for (atom, outcome, _bb, _ln) in p.conds:
+        out.add((ix.inline(sym.subst(atom, m)) if m else ix.inline(atom), outcome))
+    for e in p.events:
+        if e.name in ROLE_LIBS and propagated(p, e):
+            h = sym.mk("happened", (e.name,), tuple(e.args))
+            out.add((ix.inline(sym.subst(h, m)) if m else h, True))
+    return out
+
+
+def _imports(ix, p):
+    cs = []
+    seen = set()
+
+    def want(c):
+        if tag(c) == "call" and c not in seen and ix.call_target(c) is not None:
+            seen.add(c)
+            cs.append(c)
+    for (atom, outcome, _bb, _ln) in p.conds:
+        if tag(atom) == "op" and payload(atom)[0] == "is_ok" and outcome is True:
+            want(kids(atom)[0])
+    for e in p.events:
+        if e.name in P.UNWRAPS and e.args:
+            want(e.args[0])
+    if p.kind() == "dep":
+        want(p.ret)
+    return cs
+
+
+def callee_all_satisfy(ix, c, pred, depth=4):
+    """every success path of workspace call value c (given in the caller's terms) satisfies pred, either by
+    its own branch facts or through one of the callees it relies on"""
+    fn = ix.call_target(c)
+    if fn is None or depth <= 0:
+        return False
+    m = ix.param_map(fn, kids(c))
+    try:
+        ps = ix.ok_paths_at(fn, m)
+    except P.TooManyPaths:
+        return False
+    if not ps:
+        return False
+    for p in ps:
+        if pred(_own_facts(ix, p, m)):
+            continue
+        if not any(callee_all_satisfy(ix, sym.subst(c2, m), pred, depth - 1) for c2 in _imports(ix, p)):
+            return False
+    return True
+
+
+def path_satisfies(ix, q, pred, m=None, depth=4):
+    """pred holds on path q (of a handler whose parameters map to entry terms by m): by q's own branch
+    facts, or because a callee q relies on establishes it on all of its success paths"""
+    m = m or {}
+    if pred(_own_facts(ix, q, m)):
+        return True
+    for c in _imports(ix, q):
+        if callee_all_satisfy(ix, sym.subst(c, m), pred, depth):
+            return True
+    return False
